@@ -296,6 +296,23 @@ def run(tier, seed):
                 n += 1
                 if cls != "ValueError" or ":2:" not in val:
                     rep.violation("io.load_events", "comment-marker/other-marker-line-not-rejected", {"text": "1.5\n" + text, "comment": "%", "outcome": [cls, repr(val)[:200]]})
+            # comment=None: no line is a comment - plain rows load as usual, a '#' line is then a malformed row
+            for src, (cls, val, nw) in load_both(me, "events", "1.5\n2.25\n", "space", scratch, extra={"comment": None}):
+                n += 1
+                if cls != "ok" or not same_value(val, np.array([1.5, 2.25])):
+                    rep.violation("io.load_events", "comment-none/value-differs", {"text": "1.5\n2.25\n", "comment": None, "source": src, "outcome": [cls, repr(val)[:200]]})
+            for loader, text in (("events", "1.5\n# x\n"), ("ragged_time_series", "1.5 440.0\n# x\n")):
+                for src, (cls, val, nw) in load_both(me, loader, text, "space", scratch, extra={"comment": None}):
+                    n += 1
+                    if cls != "ValueError" or ":1:" not in str(val) and ":2:" not in str(val):
+                        rep.violation("io.load_" + loader, "comment-none/marker-line-not-rejected", {"text": text, "comment": None, "source": src, "outcome": [cls, repr(val)[:200]]})
+            # ragged time series: an unparsable time stamp / value names its row
+            for text, rowno in (("0.5 440\nabc 220\n", 1), ("0.5 440\n1.0 2x0\n", 1)):
+                for src, (cls, val, nw) in load_both(me, "ragged_time_series", text, "space", scratch):
+                    n += 1
+                    if cls != "ValueError" or (":%d:" % rowno) not in str(val):
+                        rep.violation("io.load_ragged_time_series", "malformed-row/" + ("returned-a-value" if cls == "ok" else "raised-" + cls if cls != "ValueError" else "error-does-not-name-the-row"),
+                                      {"text": text, "source": src, "outcome": [cls, repr(val)[:200]]})
             for text in ("60 120 1.5\n", "60 120 -0.1\n"):
                 for src, (cls, val, nw) in load_both(me, "tempo", text, "space", scratch):
                     n += 1
